@@ -80,7 +80,8 @@ def groupby_reduction(
     # to user supplied func
     def _group_reduction_func_wrapper(func):
         def wrapper(a, by, **kwargs):
-            return func(a, nxp.squeeze(by), **kwargs)
+            # flatten rather than squeeze: a block with a single label must stay 1-d
+            return func(a, nxp.reshape(by, (-1,)), **kwargs)
 
         return wrapper
 
